@@ -264,9 +264,17 @@ def r3(ctx):
 def r4(ctx):
     b = ctx.fn(GAP)
     oks = result_aggs(b, "Ok")
-    ok = one(oks, "Ok(params) in get_auth_parameters")
+    if not oks:
+        raise AnchorMissing("Ok(params) in get_auth_parameters")
     ctx.count()
     missing = []
+    # every success return (a "fast path" is one too) lies behind all requirement accessors
+    for extra_ok in oks[1:]:
+        lacking = [t["callee"].split("::")[-1] for bi, t in b.calls(r"^canonical::SignedHeaderRequirements::\w+$") if not b.dominates(bi, extra_ok[0])]
+        if lacking:
+            yield VIOL("C05-R4", "get_auth_parameters/early-ok", "an additional Ok(..) return is reachable without consulting %s: requests taking it skip those signed-header requirements" % sorted(set(lacking)), where=b.span_of_block(extra_ok[0]))
+            return
+    ok = oks[0]
     for bi, t in b.calls(r"^canonical::SignedHeaderRequirements::\w+$"):
         if not b.dominates(bi, ok[0]):
             missing.append(t["callee"].split("::")[-1])
